@@ -616,6 +616,7 @@ func RunAll(srcs []string, nw int, wantInterp, wantBash bool) map[string]*Job {
 			var w *worker
 			defer func() { w.kill() }()
 			for j := range ch {
+				t0 := time.Now()
 				if wantInterp {
 					if w == nil {
 						w = startWorker()
@@ -664,6 +665,9 @@ func RunAll(srcs []string, nw int, wantInterp, wantBash bool) map[string]*Job {
 						r = Bash(j.Src, 4)
 					}
 					j.Bash = r
+				}
+				if d := time.Since(t0); d > 3*time.Second && os.Getenv("HXBEH_SLOW") != "" {
+					fmt.Fprintf(os.Stderr, "SLOW %v interp=%q bash=%q\n%s\n=====\n", d, j.Interp.Note, j.Bash.Note, j.Src)
 				}
 			}
 		}()
